@@ -37,6 +37,77 @@ spec fn sound(tr: Seq<Transition>, lt: Seq<LocalTimeType>, local: int, o: LocalT
     0 <= k <= tr.len() && interval_type(tr, lt, k) == o && (k == 0 || tr[k - 1].unix_leap_time <= local - o.ut_offset)
     && (k == tr.len() || local - o.ut_offset < tr[k].unix_leap_time || (incl && local - o.ut_offset == tr[k].unix_leap_time))
 }
+// ---- exact classification (C05: occurs once -> exactly one result, twice -> both, inside a skipped interval -> none) ----
+spec fn toff(tr: Seq<Transition>, lt: Seq<LocalTimeType>, j: int) -> int { interval_type(tr, lt, j).ut_offset as int }
+// wall-clock window disturbed by transition j: [lo, hi] = [T[j] + min(before, after), T[j] + max(before, after)]
+spec fn wlo(tr: Seq<Transition>, lt: Seq<LocalTimeType>, j: int) -> int { tr[j].unix_leap_time + (if toff(tr, lt, j) <= toff(tr, lt, j + 1) { toff(tr, lt, j) } else { toff(tr, lt, j + 1) }) }
+spec fn whi(tr: Seq<Transition>, lt: Seq<LocalTimeType>, j: int) -> int { tr[j].unix_leap_time + (if toff(tr, lt, j) <= toff(tr, lt, j + 1) { toff(tr, lt, j + 1) } else { toff(tr, lt, j) }) }
+// hypothesis on the zone data (stated, not proved): the disturbed windows of consecutive transitions are disjoint and ordered.
+// Real zoneinfo data and the property's zone models satisfy it; it implies tz_sep.
+spec fn tz_ordered(tr: Seq<Transition>, lt: Seq<LocalTimeType>) -> bool {
+    forall|j: int| 0 <= j < tr.len() - 1 ==> #[trigger] whi(tr, lt, j) < wlo(tr, lt, j + 1)
+}
+proof fn ordered_implies_sep(tr: Seq<Transition>, lt: Seq<LocalTimeType>)
+    requires tz_ordered(tr, lt)
+    ensures tz_sep(tr, lt)
+{
+    assert forall|i: int| 0 <= i < tr.len() - 1 implies (#[trigger] tr[i]).unix_leap_time + interval_type(tr, lt, i).ut_offset - interval_type(tr, lt, i + 1).ut_offset < tr[i + 1].unix_leap_time by {
+        assert(whi(tr, lt, i) < wlo(tr, lt, i + 1));
+    }
+}
+proof fn window_chain(tr: Seq<Transition>, lt: Seq<LocalTimeType>, a: int, b: int)
+    requires tz_ordered(tr, lt), 0 <= a < b < tr.len()
+    ensures whi(tr, lt, a) < wlo(tr, lt, b)
+    decreases b - a
+{
+    if a + 1 < b { window_chain(tr, lt, a, b - 1); assert(whi(tr, lt, b - 1) < wlo(tr, lt, b)); assert(wlo(tr, lt, b - 1) <= whi(tr, lt, b - 1)); }
+    else { assert(whi(tr, lt, a) < wlo(tr, lt, a + 1)); }
+}
+// `local` is a wall-clock reading of an instant strictly inside interval j
+spec fn strict(tr: Seq<Transition>, lt: Seq<LocalTimeType>, local: int, j: int) -> bool {
+    0 <= j <= tr.len() && (j == 0 || tr[j - 1].unix_leap_time <= local - toff(tr, lt, j)) && (j == tr.len() || local - toff(tr, lt, j) < tr[j].unix_leap_time)
+}
+// no interval other than idx and idx+1 can produce `local` once every earlier window lies before it and it is not past window idx
+proof fn others_not_strict(tr: Seq<Transition>, lt: Seq<LocalTimeType>, local: int, idx: int)
+    requires tz_wf(tr, lt), tz_ordered(tr, lt), 0 <= idx < tr.len(), forall|j: int| 0 <= j < idx ==> #[trigger] whi(tr, lt, j) < local, local <= whi(tr, lt, idx)
+    ensures forall|j: int| 0 <= j <= tr.len() && j != idx && j != idx + 1 ==> !#[trigger] strict(tr, lt, local, j)
+{
+    assert forall|j: int| 0 <= j <= tr.len() && j != idx && j != idx + 1 implies !#[trigger] strict(tr, lt, local, j) by {
+        if j < idx { assert(whi(tr, lt, j) < local); }
+        else { window_chain(tr, lt, idx, j - 1); assert(wlo(tr, lt, j - 1) <= tr[j - 1].unix_leap_time + toff(tr, lt, j)); }
+    }
+}
+proof fn earlier_not_strict(tr: Seq<Transition>, lt: Seq<LocalTimeType>, local: int)
+    requires tz_wf(tr, lt), forall|j: int| 0 <= j < tr.len() ==> #[trigger] whi(tr, lt, j) < local
+    ensures forall|j: int| 0 <= j < tr.len() ==> !#[trigger] strict(tr, lt, local, j)
+{
+    assert forall|j: int| 0 <= j < tr.len() implies !#[trigger] strict(tr, lt, local, j) by { assert(whi(tr, lt, j) < local); }
+}
+spec fn exact_post(tr: Seq<Transition>, lt: Seq<LocalTimeType>, local: int, r: Result<MappedLocalTime<LocalTimeType>, Error>) -> bool {
+    &&& r is Ok
+    &&& (r->Ok_0 is None) ==> (forall|j: int| 0 <= j <= tr.len() ==> !#[trigger] strict(tr, lt, local, j))
+    &&& (r->Ok_0 is Single) ==> (exists|k: int| #[trigger] sound(tr, lt, local, r->Ok_0->Single_0, k, true) && (forall|j: int| 0 <= j <= tr.len() && j != k ==> !#[trigger] strict(tr, lt, local, j)))
+    &&& (r->Ok_0 is Ambiguous) ==> (exists|ka: int, kb: int| ka != kb && #[trigger] sound(tr, lt, local, r->Ok_0->Ambiguous_0, ka, true) && #[trigger] sound(tr, lt, local, r->Ok_0->Ambiguous_1, kb, true)
+            && (forall|j: int| 0 <= j <= tr.len() && j != ka && j != kb ==> !#[trigger] strict(tr, lt, local, j)))
+}
+proof fn exact_none(tr: Seq<Transition>, lt: Seq<LocalTimeType>, local: int)
+    requires forall|j: int| 0 <= j <= tr.len() ==> !#[trigger] strict(tr, lt, local, j)
+    ensures exact_post(tr, lt, local, Ok(MappedLocalTime::None))
+{}
+proof fn exact_single(tr: Seq<Transition>, lt: Seq<LocalTimeType>, local: int, o: LocalTimeType, k: int)
+    requires sound(tr, lt, local, o, k, true), forall|j: int| 0 <= j <= tr.len() && j != k ==> !#[trigger] strict(tr, lt, local, j)
+    ensures exact_post(tr, lt, local, Ok(MappedLocalTime::Single(o)))
+{
+    let r: Result<MappedLocalTime<LocalTimeType>, Error> = Ok(MappedLocalTime::Single(o));
+    assert(sound(tr, lt, local, r->Ok_0->Single_0, k, true));
+}
+proof fn exact_amb(tr: Seq<Transition>, lt: Seq<LocalTimeType>, local: int, a: LocalTimeType, ka: int, b: LocalTimeType, kb: int)
+    requires ka != kb, sound(tr, lt, local, a, ka, true), sound(tr, lt, local, b, kb, true), forall|j: int| 0 <= j <= tr.len() && j != ka && j != kb ==> !#[trigger] strict(tr, lt, local, j)
+    ensures exact_post(tr, lt, local, Ok(MappedLocalTime::Ambiguous(a, b)))
+{
+    let r: Result<MappedLocalTime<LocalTimeType>, Error> = Ok(MappedLocalTime::Ambiguous(a, b));
+    assert(sound(tr, lt, local, r->Ok_0->Ambiguous_0, ka, true) && sound(tr, lt, local, r->Ok_0->Ambiguous_1, kb, true));
+}
 spec fn from_local_post(tr: Seq<Transition>, lt: Seq<LocalTimeType>, local: int, r: Result<MappedLocalTime<LocalTimeType>, Error>) -> bool {
     &&& r is Ok
     &&& (r->Ok_0 is Single) ==> (exists|k: int| #[trigger] sound(tr, lt, local, r->Ok_0->Single_0, k, true))
@@ -68,7 +139,8 @@ proof fn post_none(tr: Seq<Transition>, lt: Seq<LocalTimeType>, local: int)
 
 LOOP = '''for transition in it: self.transitions
                 invariant
-                    tz_wf(self.transitions@, self.local_time_types@), tz_sep(self.transitions@, self.local_time_types@), tr == self.transitions@, lt == self.local_time_types@,
+                    tz_wf(self.transitions@, self.local_time_types@), tz_sep(self.transitions@, self.local_time_types@), tz_ordered(self.transitions@, self.local_time_types@), tr == self.transitions@,
+                    forall|j: int| 0 <= j < it.index@ ==> #[trigger] whi(tr, lt, j) < local_leap_time, lt == self.local_time_types@,
                     it.index@ <= tr.len(), local_leap_time as int == unix_secs(local_time), dtwf(local_time),
                     prev == interval_type(tr, lt, it.index@ as int),
                     it.index@ > 0 ==> tr[it.index@ - 1].unix_leap_time + prev.ut_offset < local_leap_time,
@@ -101,24 +173,48 @@ impl TimeZone for Utc { type Offset = Utc; }
     u.raw(clean_struct(src(FR).enum('TransitionRule'), derive='Clone, Copy'))
     u.struct(F, 'TimeZoneRef', derive=None)
     u.raw(P.DATE_VIEW_AX + P.TIME_VIEW + P.DT_VIEW.replace('proof fn dt_carry', '#[verifier::external_body]\nproof fn dt_carry_unused').split('#[verifier::external_body]')[0] + SPEC)
+    u.raw('''
+// std slice::last and slice::binary_search_by_key(.., Transition::unix_leap_time) through their documented contracts
+#[verifier::external_body]
+fn last_transition<'a>(s: &'a [Transition]) -> (r: Option<&'a Transition>)
+    ensures s@.len() == 0 ==> r is None, s@.len() > 0 ==> r is Some && *r->Some_0 == s@[s@.len() - 1]
+{ unimplemented!() }
+#[verifier::external_body]
+fn bsearch_transitions(s: &[Transition], key: i64) -> (r: Result<usize, usize>)
+    requires forall|i: int, j: int| 0 <= i < j < s@.len() ==> (#[trigger] s@[i]).unix_leap_time < (#[trigger] s@[j]).unix_leap_time
+    ensures (r is Ok ==> r->Ok_0 < s@.len() && r->Ok_0 < usize::MAX && s@[r->Ok_0 as int].unix_leap_time == key),
+            (r is Err ==> r->Err_0 <= s@.len() && (forall|i: int| 0 <= i < r->Err_0 ==> (#[trigger] s@[i]).unix_leap_time < key) && (forall|i: int| r->Err_0 <= i < s@.len() ==> (#[trigger] s@[i]).unix_leap_time > key))
+{ unimplemented!() }
+''')
+    u.trusted.append('std slice::last, slice::binary_search_by_key (documented contracts, stubs last_transition / bsearch_transitions)')
     u.raw('impl NaiveDateTime {')
     u.stub(FN, 'and_utc', 'impl NaiveDateTime {', cid='NaiveDateTime::and_utc')
     u.raw('}\nimpl<Tz: TimeZone> DateTime<Tz> {')
     u.stub(FDT, 'timestamp', 'impl<Tz: TimeZone> DateTime<Tz> {', cid='DateTime::timestamp')
     u.raw('}\nimpl TransitionRule {')
     u.stub(FR, 'find_local_time_type_from_local', 'impl TransitionRule {')
+    u.stub(FR, 'find_local_time_type', 'impl TransitionRule {')
     u.raw("}\nimpl<'a> TimeZoneRef<'a> {")
-    W1 = "proof { post_single(tr, lt, local_leap_time as int, %s, it.index@ as int%s); }"
+    W1 = "proof { post_single(tr, lt, local_leap_time as int, %s, it.index@ as int%s); others_not_strict(tr, lt, local_leap_time as int, it.index@ as int); exact_single(tr, lt, local_leap_time as int, %s, it.index@ as int%s); }"
     u.prove(F, 'find_local_time_type_from_local', IMPL, cid='TimeZoneRef::find_local_time_type_from_local',
             subst=[('crate::MappedLocalTime', 'MappedLocalTime', 'crate path shortened'),
                    ('for transition in self.transitions {', LOOP, 'R8 slice loop labelled and given an invariant')],
-            hints=[("let mut prev = self.local_time_types[0];", "            let ghost tr = self.transitions@; let ghost lt = self.local_time_types@;"),
-                   ("let transition_end =", "                proof { let k = it.index@ as int; assert(interval_type(tr, lt, k) == prev); assert(interval_type(tr, lt, k + 1) == after_ltt); }"),
-                   ("Ok(MappedLocalTime::Single(offset_after_last))", "            proof { post_single(self.transitions@, self.local_time_types@, unix_secs(local_time), offset_after_last, self.transitions@.len() as int); }")],
-            hints_all=[("return Ok(MappedLocalTime::Single(prev));", W1 % ('prev', '')),
-                       ("return Ok(MappedLocalTime::Single(after_ltt));", W1 % ('after_ltt', ' + 1')),
-                       ("return Ok(MappedLocalTime::Ambiguous(prev, after_ltt));", "proof { post_amb(tr, lt, local_leap_time as int, prev, it.index@ as int, after_ltt, it.index@ as int + 1); }"),
-                       ("return Ok(MappedLocalTime::None);", "proof { post_none(tr, lt, local_leap_time as int); }")])
+            hints=[("let mut prev = self.local_time_types[0];", "            let ghost tr = self.transitions@; let ghost lt = self.local_time_types@;\n            proof { ordered_implies_sep(tr, lt); }"),
+                   ("let transition_end =", "                proof { let k = it.index@ as int; assert(interval_type(tr, lt, k) == prev); assert(interval_type(tr, lt, k + 1) == after_ltt); assert(toff(tr, lt, k) == prev.ut_offset && toff(tr, lt, k + 1) == after_ltt.ut_offset); }"),
+                   ("Ok(MappedLocalTime::Single(offset_after_last))", "            proof { let tr0 = self.transitions@; let lt0 = self.local_time_types@; post_single(tr0, lt0, unix_secs(local_time), offset_after_last, tr0.len() as int);\n"
+                    "              if tr0.len() > 0 { earlier_not_strict(tr0, lt0, unix_secs(local_time)); } exact_single(tr0, lt0, unix_secs(local_time), offset_after_last, tr0.len() as int); }")],
+            hints_all=[("return Ok(MappedLocalTime::Single(prev));", W1 % ('prev', '', 'prev', '')),
+                       ("return Ok(MappedLocalTime::Single(after_ltt));", W1 % ('after_ltt', ' + 1', 'after_ltt', ' + 1')),
+                       ("return Ok(MappedLocalTime::Ambiguous(prev, after_ltt));", "proof { post_amb(tr, lt, local_leap_time as int, prev, it.index@ as int, after_ltt, it.index@ as int + 1); others_not_strict(tr, lt, local_leap_time as int, it.index@ as int); exact_amb(tr, lt, local_leap_time as int, prev, it.index@ as int, after_ltt, it.index@ as int + 1); }"),
+                       ("return Ok(MappedLocalTime::None);", "proof { post_none(tr, lt, local_leap_time as int); others_not_strict(tr, lt, local_leap_time as int, it.index@ as int); exact_none(tr, lt, local_leap_time as int); }")])
+    u.prove(F, 'unix_time_to_unix_leap_time', IMPL, cid='TimeZoneRef::unix_time_to_unix_leap_time',
+            loops=[("while i < self.leap_seconds.len() {", "            invariant i == 0, self.leap_seconds@.len() == 0, unix_leap_time == unix_time,\n            decreases self.leap_seconds@.len() - i,")])
+    u.prove(F, 'find_local_time_type', IMPL, cid='TimeZoneRef::find_local_time_type',
+            hints=[("let extra_rule = match", "        proof { let tr = self.transitions@; let lt = self.local_time_types@; let n = tr.len() as int;\n"
+                    "          assert(interval_type(tr, lt, 0) == lt[0]); if n > 0 { assert(interval_type(tr, lt, n) == lt[tr[n - 1].local_time_type_index as int]); } }")],
+            subst=[('self.transitions.last()', 'last_transition(self.transitions)', 'std slice::last through its contract stub'),
+                   ('self\n                        .transitions\n                        .binary_search_by_key(&unix_leap_time, Transition::unix_leap_time)', 'bsearch_transitions(self.transitions, unix_leap_time)', 'std slice::binary_search_by_key through its contract stub')],
+            hints_all=[("return Ok(&self.local_time_types[local_time_type_index]);", "proof { assert(interval_type(self.transitions@, self.local_time_types@, index as int) == self.local_time_types@[local_time_type_index as int]); }")])
     u.raw('}')
     u.raw(P.FOOTER)
     return u
